@@ -44,6 +44,8 @@ Definition fn_sem (fid : Z) (cap : Z) (args : list val) : val :=
   else if bool_decide (fid = 7) then VPair (default VUnit (args !! 0%nat)) (default VUnit (args !! 1%nat))
   else if bool_decide (fid = 8) then VInt (100 * cap + a)
   else if bool_decide (fid = 10) then VUnit                                   (* a closure returning () *)
+  else if bool_decide (fid = 11) then                                         (* Some(x) unless 3 | x, else None (as ()) *)
+    (if bool_decide (a `mod` 3 = 0) then VUnit else default VUnit (args !! 0%nat))
   else VInt (a `div` 2).
 
 (* fold functions: acc, x -> acc *)
@@ -230,8 +232,9 @@ Record perkey := PerKey {
   pk_nodes : list (Z * (nid * nat));      (* prev_nodes: key -> (weak per-key node, dependency) *)
   pk_fn : bindfn;
   pk_cutoff : option cutoff;
+  pk_filter : bool;                       (* incr_filter_mapi_: the per-key result is an Option, None removes the key *)
 }.
-Global Instance eta_perkey : Settable _ := settable! PerKey <pk_result; pk_lhs_change; pk_prev; pk_acc; pk_nodes; pk_fn; pk_cutoff>.
+Global Instance eta_perkey : Settable _ := settable! PerKey <pk_result; pk_lhs_change; pk_prev; pk_acc; pk_nodes; pk_fn; pk_cutoff; pk_filter>.
 
 Record var := Var {
   v_value : val;
